@@ -95,6 +95,15 @@ def run_case(case):
     else:
       view = ds.batch(batch_size=bs, drop_remainder=drop)
   first = list(view)
+  # histories on ONE view object: an abandoned iteration, two interleaved iterators, then a full iteration again
+  it = iter(view)
+  next(it, None)
+  del it
+  inter = list(zip(view, view))
+  for a, b2 in inter:
+    require(set(a) == set(b2) and all(same(np.asarray(a[k]), np.asarray(b2[k])) for k in a),
+            'two interleaved iterators over the same view disagree')
+  require(len(inter) == len(first), 'interleaved iteration has a different number of batches', len(first), len(inter))
   second = list(view)
   require(len(first) == len(second), 'second iteration has a different number of batches', len(first), len(second))
   for b1, b2 in zip(first, second):
@@ -166,6 +175,6 @@ def plan(ctx):
                    'seed': ctx.seed}
           for mode in ('plain_keep', 'plain_drop'):
             yield {'N': n, 'B': bs, 'buckets': 1, 'mode': mode, 'chain': chain, 'hp': hp, 'seed': ctx.seed}
-  ctx.run('seq', gen())
+  ctx.run('seq', gen(), reverse_pass=True)
   ctx.extra['bounds'] = {'N': [min(ns), max(ns)], 'batch_size': [min(bss), max(bss)],
                          'buckets': [min(bucket_list), max(bucket_list)], 'chains': chains}
